@@ -11,8 +11,44 @@ import (
 	"sort"
 	"strings"
 
+	"github.com/mutagen-io/mutagen/pkg/synchronization"
+
 	"verif/harness/internal/vlib"
 )
+
+// runSubset feeds the controller's check of Stage's answer (safety.go
+// filteredPathsAreSubset, exported under the verif tag) with every pair of
+// sequences over three names up to length 3.
+func runSubset(c *vlib.Ctx) {
+	names := []string{"x", "y", "z"}
+	var seqs [][]string
+	var rec func(prefix []string)
+	rec = func(prefix []string) {
+		seqs = append(seqs, append([]string{}, prefix...))
+		if len(prefix) == 3 {
+			return
+		}
+		for _, n := range names {
+			rec(append(append([]string{}, prefix...), n))
+		}
+	}
+	rec(nil)
+	first := true
+	for _, f := range seqs {
+		for _, o := range seqs {
+			out := synchronization.VerifFilteredPathsAreSubset(append([]string{}, f...), append([]string{}, o...))
+			r := map[string]any{"ev": "Subset", "cid": "C41-subset", "filtered": append([]string{}, f...), "original": append([]string{}, o...), "out": out}
+			if first {
+				r["begin"] = true
+				r["in"] = map[string]any{"subset": true}
+				first = false
+			}
+			c.Emit(r)
+		}
+	}
+	c.Eval()
+	c.SetExtra("subset_pairs", len(seqs)*len(seqs))
+}
 
 func asString(v any) string {
 	s, _ := v.(string)
@@ -370,6 +406,9 @@ func randomCase(r *rand.Rand, salt int64) *caseSpec {
 }
 
 func runStaging(c *vlib.Ctx) error {
+	if c.Prop == "C41" {
+		runSubset(c)
+	}
 	n := 0
 	emit := func(cs *caseSpec) {
 		n++
